@@ -1,6 +1,7 @@
 #!/bin/bash
 # tools/confirm_seed.sh <worktree> <seed-id>  -- independently confirm a seeded change produced by a sub-agent:
 #  suite passes with the change, demo fails with it, demo passes without it. Copies the artefacts to seeded/<id>/.
+#  DEMO_ARGS="--no-default-features --features std" adds cargo arguments for the demo; a seeded_demo.sh is run with bash.
 WT="$1"; ID="$2"
 set -u
 cd "$WT" || exit 3
@@ -8,19 +9,31 @@ OUT=/verif/seeded/$ID
 mkdir -p "$OUT"
 cp seeded/patch.diff "$OUT/patch.diff" || exit 3
 cp seeded/seeded_demo.rs "$OUT/seeded_demo.rs" 2>/dev/null
+cp seeded/seeded_demo.sh "$OUT/seeded_demo.sh" 2>/dev/null
 cp seeded/notes.md "$OUT/notes.md" 2>/dev/null
 DEMO=ruzstd/tests/seeded_demo.rs
-[ -f "$DEMO" ] || cp seeded/seeded_demo.rs "$DEMO"
+if [ -f seeded/seeded_demo.sh ]; then
+  [ -f ruzstd/tests/seeded_demo.sh ] || cp seeded/seeded_demo.sh ruzstd/tests/seeded_demo.sh
+  rundemo() { bash ruzstd/tests/seeded_demo.sh; }
+else
+  [ -f "$DEMO" ] || cp seeded/seeded_demo.rs "$DEMO"
+  rundemo() { cargo test -p ruzstd --offline ${DEMO_ARGS:-} --test seeded_demo; }
+fi
+# the worktree must contain exactly the change of patch.diff
+git diff -- . ':!seeded' > /tmp/_cur_$ID.diff
+if ! diff -q <(grep -v '^index ' /tmp/_cur_$ID.diff) <(grep -v '^index ' seeded/patch.diff) > /dev/null; then
+  git checkout -q -- . ; git apply seeded/patch.diff || { echo "patch.diff does not apply"; exit 3; }
+fi
 # 1. suite with the change (demo moved aside)
-mv "$DEMO" /tmp/_demo_$ID.rs
+[ -f "$DEMO" ] && mv "$DEMO" /tmp/_demo_$ID.rs
 cargo test --workspace --offline > /tmp/_suite_$ID.log 2>&1; SUITE=$?
-mv /tmp/_demo_$ID.rs "$DEMO"
+[ -f /tmp/_demo_$ID.rs ] && mv /tmp/_demo_$ID.rs "$DEMO"
 # 2. demo with the change
-cargo test -p ruzstd --offline --test seeded_demo > /tmp/_demo_with_$ID.log 2>&1; WITH=$?
+rundemo > /tmp/_demo_with_$ID.log 2>&1; WITH=$?
 # 3. demo without the change
-git stash -q
-cargo test -p ruzstd --offline --test seeded_demo > /tmp/_demo_without_$ID.log 2>&1; WITHOUT=$?
-git stash pop -q
-echo "suite_with_change_exit=$SUITE demo_with_change_exit=$WITH demo_without_change_exit=$WITHOUT" | tee "$OUT/confirm.txt"
+git apply -R seeded/patch.diff
+rundemo > /tmp/_demo_without_$ID.log 2>&1; WITHOUT=$?
+git apply seeded/patch.diff
+echo "suite_with_change_exit=$SUITE demo_with_change_exit=$WITH demo_without_change_exit=$WITHOUT demo_args='${DEMO_ARGS:-}'" | tee "$OUT/confirm.txt"
 grep -E "^test result" /tmp/_suite_$ID.log | tr '\n' ' ' >> "$OUT/confirm.txt"
 if [ $SUITE -eq 0 ] && [ $WITH -ne 0 ] && [ $WITHOUT -eq 0 ]; then echo CONFIRMED | tee -a "$OUT/confirm.txt"; else echo NOT-CONFIRMED | tee -a "$OUT/confirm.txt"; fi
